@@ -33,8 +33,9 @@ TOL = 2e-5
 BAND = 1e-3
 
 
-def add_u(s, dim_axis):
-    """add a rigid co-motion with the second free variable u to every position value of the spec"""
+def add_u(s, dim_axis, default=None):
+    """add a rigid co-motion with the second free variable u to every position value of the spec; with `default` the
+    generated parameter functions declare u as an optional argument (python default)"""
     if not isinstance(s, dict):
         return
     for key in ("center", "origin", "c1", "c2", "point", "lo", "hi"):
@@ -44,13 +45,15 @@ def add_u(s, dim_axis):
             coef = [0.0] * m
             coef[min(dim_axis, m - 1)] = 0.8
             term = {"var": "u", "col": 0, "kind": "lin", "coef": coef}
+            if default is not None:
+                term["default"] = float(default)
             if isinstance(v, dict):
                 v["terms"].append(term)
             else:
                 s[key] = {"a": [float(x) for x in np.atleast_1d(np.asarray(v, float))], "terms": [term]}
     for k in ("a", "b", "d"):
         if k in s and isinstance(s[k], dict):
-            add_u(s[k], dim_axis)
+            add_u(s[k], dim_axis, default)
 
 
 def has_polygon(s):
@@ -77,19 +80,25 @@ def gen_cases(seed, tier):
         if not node.free():
             continue
         rows = dict(dom["rows"])
-        if rng.random() < 0.5 and not has_polygon(spec) and dom["info"]["kind"] != "rotate":
+        optional = {}
+        if rng.random() < 0.6 and not has_polygon(spec) and dom["info"]["kind"] != "rotate":
+            # in a third of these cases u is an OPTIONAL argument of the parameter functions (python default)
+            default = float(np.float32(rng.uniform(0.2, 0.8))) if rng.random() < 0.35 else None
             if dom["info"]["kind"] == "product":
-                add_u(spec["a"], 1)
+                add_u(spec["a"], 1, default)
             else:
-                add_u(spec, 1 if node.dim() > 1 else 0)
-            rows["u"] = [[float(np.float32(x))] for x in rng.uniform(0, 1, len(rows["t"]))]
+                add_u(spec, 1 if node.dim() > 1 else 0, default)
+            if default is None:
+                rows["u"] = [[float(np.float32(x))] for x in rng.uniform(0, 1, len(rows["t"]))]
+            else:
+                optional = {"u": default}
         node = geo.ref(spec)
         free = sorted(node.free())
         if not set(free) <= set(rows):
             continue
         rows = {v: rows[v] for v in free}
         info = dict(dom["info"], desc=node.desc(), dep=True)
-        cases.append({"spec": spec, "rows": rows, "info": info, "k": len(rows[free[0]]), "free": free,
+        cases.append({"spec": spec, "rows": rows, "info": info, "k": len(rows[free[0]]), "free": free, "optional": optional,
                       "seed": int(rng.integers(0, 2 ** 31)), "uservol": bool(rng.random() < 0.2)})
     return cases
 
@@ -163,10 +172,19 @@ def run_case(case):
                 out["vol"] = "EXC %r" % e
         return out
     snap0 = snapshot()
-    for fixed in _subsets(free):
+    optional = case.get("optional", {})
+    if optional:
+        # the optional variable is not in the parameter rows: the original uses its declared default; fixing it by
+        # partial evaluation must override the default
+        env = dict(env)
+        mech0["optional_arg"] = True
+    for fixed in _subsets(free + sorted(optional)):
         rest = [v for v in free if v not in fixed]
         j = int(rng.integers(0, k))
         mech = dict(mech0, fixed="+".join(fixed))
+        for v in optional:
+            val = float(np.float32(rng.uniform(1.0, 2.0))) if v in fixed else float(np.float32(optional[v]))
+            env[v] = np.full((k, 1), val)
         vals = {v: torch.tensor(env[v][j:j + 1].astype(np.float32)) for v in fixed}
         try:
             Dp = D(**vals)
@@ -181,7 +199,9 @@ def run_case(case):
             res["viol"].append(viol("necessary_variables", "%s(**%s) declares necessary_variables=%s, expected %s" %
                                     (info["desc"], fixed, sorted(nvp) if nvp is not None else None, rest), stage="evaluated", **mech))
         # environment: fixed values for every query row, remaining variables row-wise
-        env_e = {v: (np.repeat(env[v][j:j + 1], nq, 0) if v in fixed else envq[v]) for v in free}
+        allv = free + sorted(optional)
+        envq_all = dict(envq, **{v: env[v][ridx] for v in optional})
+        env_e = {v: (np.repeat(env[v][j:j + 1], nq, 0) if v in fixed else envq_all[v]) for v in allv}
         rest_q = {v: envq[v] for v in rest}
         bx = geo._hull_box(node, env_e, nq)
         ex = bx[:, 1::2] - bx[:, 0::2]
@@ -199,7 +219,7 @@ def run_case(case):
                 res["viol"].append(viol("evaluated_membership_differs", "%s(**%s): %d of %d membership answers differ from the original "
                                         "expression at those values, e.g. x=%s env=%s library %s twin level %.4g" %
                                         (info["desc"], fixed, int(bad.sum()), int(far.sum()), X[i].tolist(),
-                                         {v: env_e[v][i].tolist() for v in free}, bool(ans[i]), f[i]), **mech))
+                                         {v: env_e[v][i].tolist() for v in allv}, bool(ans[i]), f[i]), **mech))
         except Exception as e:
             res["viol"].append(viol("exception", "%s(**%s)._contains raised %s in %s: %s" % (info["desc"], fixed, type(e).__name__, exc_site(e),
                                     str(e)[:300]), exc=type(e).__name__, site=exc_site(e), call="_contains", **mech))
@@ -223,7 +243,7 @@ def run_case(case):
                                         (target, info["desc"], fixed, len(Xs), kk if rest else 0), target=target, **mech))
                 continue
             sidx = np.arange(len(Xs)) // 15
-            env_s = {v: (np.repeat(env[v][j:j + 1], len(Xs), 0) if v in fixed else env[v][sidx]) for v in free}
+            env_s = {v: (np.repeat(env[v][j:j + 1], len(Xs), 0) if v in fixed else env[v][sidx]) for v in allv}
             tnode = node if target == "interior" else geo.ref({"op": "boundary", "d": case["spec"]})
             Ls = max(Le, float(np.abs(Xs).max()))
             ok, amb = tnode.member(Xs, env_s, TOL * Ls, Ls)
@@ -233,10 +253,10 @@ def run_case(case):
                 i = int(np.where(~ok & ~amb)[0][0])
                 res["viol"].append(viol("evaluated_sample_outside", "%s of %s(**%s): %d of %d samples are not in the original expression at "
                                         "those values, e.g. x=%s env=%s" % (target, info["desc"], fixed, int((~ok & ~amb).sum()), len(Xs),
-                                                                            Xs[i].tolist(), {v: env_s[v][i].tolist() for v in free}), target=target, **mech))
+                                                                            Xs[i].tolist(), {v: env_s[v][i].tolist() for v in allv}), target=target, **mech))
         # volume / bounding box commute with evaluation
         if not is_dep_product:
-            full_rows = {v: (np.repeat(env[v][j:j + 1], kk, 0) if v in fixed else env[v]) for v in free}
+            full_rows = {v: (np.repeat(env[v][j:j + 1], kk, 0) if v in fixed else env[v]) for v in allv if v in free or v in fixed}
             Pf = _params(full_rows)
             for what in ("volume", "bounding_box"):
                 try:
@@ -265,7 +285,10 @@ def run_case(case):
         # nested evaluation
         if len(fixed) == 2:
             try:
-                D1 = D(**{fixed[0]: vals[fixed[0]]})(**{fixed[1]: vals[fixed[1]]})
+                # optional arguments first: once every required name is bound the value is final (absent optional
+                # arguments take their defaults, C13), so a later value for an optional argument cannot apply
+                order = sorted(fixed, key=lambda v: v not in optional)
+                D1 = D(**{order[0]: vals[order[0]]})(**{order[1]: vals[order[1]]})
                 a1 = D1._contains(_pts(names_dims, X), _params(rest_q)).reshape(-1).bool().numpy()
                 a2 = Dp._contains(_pts(names_dims, X), _params(rest_q)).reshape(-1).bool().numpy()
                 res["judged"] += 1
